@@ -64,6 +64,11 @@ def run_case(case, ctx):
     opts.update(dtype_amps=['float64', 'float32'][int(rng.integers(0, 2))],
                 dtype_templates=['float32', 'float32', 'float64'][int(rng.integers(0, 3))],
                 dtype_feat=['float32', 'float64'][int(rng.integers(0, 2))])
+    if case['seed'][-1] % 25 == 7:
+        # narrow id dtype with far-away cluster ids: products of ids beyond 16 bits, on every run
+        opts.update(dtype_ids='uint16', far_ids=14000, nt=6, ns=max(opts['ns'], 40), clusters='curated', curation_ops=6, spikeless='none')
+    elif case['seed'][-1] % 25 == 8:
+        opts.update(dtype_ids='uint16', far_ids=0, nt=300, ns=900, nc=6, clusters='curated', curation_ops=6)
     spec = random_spec(rng, **opts)
     if rng.random() < 0.3:
         spec.notes['amplitude_threshold'] = [0.5, 0.3][int(rng.integers(0, 2))]     # params.py options
